@@ -11,6 +11,9 @@
     loopsched <pinned> <cap> <k> {<tokens> <reads>}*k <tail> <limit> <n> <stop>* <m> <ev>*
         -> <reason> np=<k> recv=<n> <chunk>* buf=<n> <chunk>* pend=<n> <piece>* forced=<n>
         the reader takes <reads> chunks after each of the next <tokens> tokens, then <tail> per token
+    handler <pinned> <promptLen> <calls> <limit> <n> <stop>* <m> <ev>*
+        -> status=200 {| content=<chunk>}* [| done=true done_reason=<0|1> eval_count=<k> prompt_eval_count=<p>]
+        the JSON lines the completion handler has written after <calls> calls of processBatch (0 = until the end)
   Byte strings are hex, `-` is the empty string.
 -/
 import OllamaVerif.Model.Stop
@@ -93,6 +96,20 @@ def handle (toks : List String) : Option String :=
         | some .stop => "stop"
         | some .length => "length"
       pure s!"{reason} np={st.numPredicted} recv={showList c.recv} buf={showList c.buf} pend={showList st.pending} forced={c.forced}") rest
+  | "handler" :: rest =>
+    runTP (do
+      let pinned ← nat
+      let promptLen ← nat
+      let calls ← nat
+      let limit ← int
+      let stops ← listOf hex
+      let evs ← listOf pEv
+      let f := if calls == 0 then run (pinned != 0) limit stops init evs
+               else runN (pinned != 0) limit stops calls init evs
+      let showLine : Line → String
+        | .content c => s!"| content={hexOrDash c}"
+        | .final r p e => s!"| done=true done_reason={match r with | .stop => 0 | .length => 1} eval_count={e} prompt_eval_count={p}"
+      pure (joinWith " " ("status=200" :: (handlerLines promptLen f).map showLine))) rest
   | _ => none
 
 end Oracle.C14
